@@ -492,6 +492,12 @@ class ColorVisuals(Visuals):
         mask = np.asanyarray(mask)
         if key in self._data:
             self._data[key] = self._data[key][mask]
+        else:
+            # colors of this kind may have been derived from the other
+            # kind for the previous faces or vertices and kept in cache,
+            # which only watches our own data: drop them so they regenerate
+            self._cache.delete(key)
+            self._cache.delete(key + "_hash")
 
 
 class VertexColor(Visuals):
